@@ -38,6 +38,10 @@ Section Session.
 Variable exc : Type.
 Variable should_retry : exc -> bool.     (* getattr(exc, 'should_retry', False) *)
 Variable cfail : exc.                    (* what a failing flush-at-commit raises *)
+Variable is_exception : exc -> bool.     (* isinstance(e, Exception); false for SystemExit, KeyboardInterrupt, GeneratorExit and user
+                                            classes derived directly from BaseException.  `exc` ranges over ALL BaseExceptions: the wrapper's
+                                            handlers are bare `except:` clauses, so nothing in enter/exit_/loop/ginteract depends on this
+                                            predicate - only user code that says `except Exception` does (PTry) *)
 
 Inductive outcome := Ok | Raise (e : exc).
 
@@ -122,15 +126,19 @@ Definition call_stream (s : sess) (str : list (bool * outcome)) : body := call s
 Inductive prog :=
 | PLeaf (i : nat) (poison : bool) (o : outcome)
 | PSeq (p q : prog)                 (* p; q   -- q runs only if p finished normally *)
-| PTry (p : prog)                   (* try: p  except Exception: pass *)
+| PTry (p : prog)                   (* try: p  except Exception: pass   (BaseException-only exceptions pass through) *)
 | PWith (s : sess) (p : prog)       (* with db_session(...): p *)
 | PCall (s : sess) (p : prog).      (* f() where f = db_session(...)(lambda: p) *)
+
+(* try: ... except Exception: pass  -- a BaseException that is not an Exception goes through *)
+Definition try_outcome (o : outcome) : outcome :=
+  match o with Ok => Ok | Raise e => if is_exception e then Ok else Raise e end.
 
 Fixpoint run (p : prog) : body :=
   match p with
   | PLeaf i b o => leaf i b o
   | PSeq p q => fun x => let '(x1, o) := run p x in match o with Ok => run q x1 | Raise e => (x1, Raise e) end
-  | PTry p => fun x => let '(x1, _) := run p x in (x1, Ok)
+  | PTry p => fun x => let '(x1, o) := run p x in (x1, try_outcome o)
   | PWith s p => run_with s (run p)
   | PCall s p => call s (fun _ => run p)
   end.
@@ -141,7 +149,7 @@ Fixpoint writes (p : prog) : list (nat * bool) * outcome :=
   | PLeaf i b o => ([(i, b)], o)
   | PSeq p q => let '(w, o) := writes p in
                 match o with Ok => let '(w', o') := writes q in (w ++ w', o') | Raise e => (w, Raise e) end
-  | PTry p => (fst (writes p), Ok)
+  | PTry p => (fst (writes p), try_outcome (snd (writes p)))
   | PWith _ p => writes p
   | PCall _ p => writes p
   end.
